@@ -32,10 +32,12 @@ Proof. induction h; intros; simpl; auto. rewrite IHh. reflexivity. Qed.
 
 Lemma c23_take_N_app : forall h t, take_N (N.of_nat (length h)) (h ++ t) = Some (h, t).
 Proof.
-  intros. unfold take_N. rewrite app_length.
-  assert (E : (N.of_nat (length h) <=? N.of_nat (length h + length t)%nat) = true)
-    by (apply N.leb_le; lia).
-  rewrite E. rewrite Nnat.Nat2N.id. apply c23_take_app.
+  unfold take_N. induction h as [|b h IH]; intros t.
+  - destruct t; reflexivity.
+  - cbn [length app take_Nf].
+    destruct (N.eqb_spec (N.of_nat (S (length h))) 0) as [E|_]; [lia|].
+    replace (N.pred (N.of_nat (S (length h)))) with (N.of_nat (length h)) by lia.
+    rewrite IH. reflexivity.
 Qed.
 
 Lemma c23_le_enc_length : forall w n, length (le_enc w n) = w.
